@@ -12,6 +12,7 @@ import (
 	"sync"
 
 	"github.com/openfga/openfga/internal/verifh/core"
+	"github.com/openfga/openfga/internal/verifh/e1"
 )
 
 // Case is one execution; it is everything needed to replay it.
@@ -455,6 +456,9 @@ func Run(o *core.Options) int {
 	r.Set("rpcs_discovered", methods)
 
 	if o.Replay != "" {
+		if isSub, code := e1.ReplaySub(o, "authzx"); isSub {
+			return code // a schedule recorded by the authorizer-under-the-scheduler sub-harness
+		}
 		var c Case
 		if err := core.LoadReplay(o.Replay, &c); err != nil {
 			fmt.Fprintln(os.Stderr, "C26 replay:", err)
@@ -654,5 +658,6 @@ func Run(o *core.Options) int {
 		}
 		return 2
 	}
+	e1.MergeSub(o, r, "authzx", "C26", "authorizer_interleavings", "real internal/authz.Authorizer (instrumented with internal/concurrency: sync, channels, select, go statements, context reads and cancellations go through the vrt scheduler) over a scripted access-control server answering allowed / denied / error for the store-level decision and for 0-2 module decisions, Read and Write, with and without a thread that cancels the request context at an arbitrary point (a decision asked under a cancelled context fails, as the server's Check does), with and without a client identity; EVERY interleaving and every choice among ready select cases (preemption bounds 0,1,2 then unbounded with state-key pruning, then the partial-order-reduced search); oracle: Authorize returns nil only if the store-level decision allows or the write is confined to one module whose decision allows - a denial or an error of any consulted decision, including an error caused by the cancellation, denies the call; no deadlock, no panic")
 	return r.Finish()
 }
